@@ -60,13 +60,27 @@ var c10Classes = []struct {
 	{"two-patterns-dotdot", "parameters: {p: 1}\n", func(sut.Flags) bool { return false }},
 	{"two-patterns-double-slash", "parameters: {p: 1}\n", func(sut.Flags) bool { return false }},
 	{"nothing-processed", "", func(sut.Flags) bool { return false }},
+	// the number of diagnostics at the boundaries of an 8-bit exit status
+	{"missing-services-255", manyMissing(255), func(f sut.Flags) bool { return f.IgnoreMissingServices }},
+	{"missing-services-256", manyMissing(256), func(f sut.Flags) bool { return f.IgnoreMissingServices }},
+	{"missing-services-512", manyMissing(512), func(f sut.Flags) bool { return f.IgnoreMissingServices }},
+}
+
+// manyMissing: one service referencing n undefined services (n missing-service diagnostics).
+func manyMissing(n int) string {
+	var sb strings.Builder
+	sb.WriteString("services:\n  s:\n    constructor: fx/lib.NewObj\n    arguments:\n")
+	for i := 0; i < n; i++ {
+		fmt.Fprintf(&sb, "      - \"@gone%d\"\n", i)
+	}
+	return sb.String()
 }
 
 const c10Companion = "parameters: {companionOnly: 7}\nservices:\n  companionSvc: {constructor: fx/lib.NewObj, arguments: [\"%companionOnly%\"]}\n"
 
 var c10Companions = []string{"", "before", "after", "glob"}
 
-var c10PreStates = []string{"absent", "existing", "existing-long", "directory", "missing-parent", "dev-full"}
+var c10PreStates = []string{"absent", "existing", "existing-long", "same-plus-suffix", "same-truncated", "directory", "missing-parent", "dev-full"}
 var c10Faults = []string{"none", "missing-file", "directory-as-input", "empty-glob", "invalid-glob"}
 
 var sentinel = []byte("// SENTINEL: this file existed before the run\npackage old\n")
@@ -136,6 +150,24 @@ func c10Eval(t tb, c c10Cell) {
 		_ = os.WriteFile(out, sentinel, 0o640)
 		old := time.Date(2001, 2, 3, 4, 5, 6, 0, time.UTC)
 		_ = os.Chtimes(out, old, old)
+	case "same-plus-suffix", "same-truncated":
+		// the file already holds what this run would generate, followed by more text / cut in the middle
+		// (falls back to the sentinel when the run fails anyway)
+		content := sentinel
+		probe := filepath.Join(dir, "probe.go")
+		pf := c.Flags
+		pf.Quiet = true
+		if pr := bin.Run(dir, nil, 120*time.Second, sut.BuildArgs(pats, probe, pf)...); pr.Exit == 0 {
+			if b, err := os.ReadFile(probe); err == nil && len(b) > 0 {
+				if c.PreState == "same-plus-suffix" {
+					content = append(b, []byte("\n// appended by hand\n")...)
+				} else {
+					content = b[:len(b)/2]
+				}
+			}
+		}
+		_ = os.Remove(probe)
+		_ = os.WriteFile(out, content, 0o644)
 	case "existing-long": // longer than anything the tool generates for these inputs: a write that does not truncate leaves a tail
 		_ = os.WriteFile(out, bytes.Repeat(sentinel, 4000), 0o600)
 	case "directory":
@@ -158,7 +190,7 @@ func c10Eval(t tb, c c10Cell) {
 	preInner := sut.StatPath(filepath.Join(out, "inner", "keep.txt"))
 	r := bin.Run(dir, nil, 120*time.Second, sut.BuildArgs(pats, out, flags)...)
 	post := sut.StatPath(out)
-	col.Case(ev.Hash(c), !wantOK || c.PreState == "existing" || c.PreState == "existing-long")
+	col.Case(ev.Hash(c), !wantOK || strings.HasPrefix(c.PreState, "existing") || strings.HasPrefix(c.PreState, "same"))
 	col.Label("class:" + c.Class)
 	col.Label("pre-state:" + c.PreState)
 	col.Label("input-fault:" + c.Fault)
@@ -167,9 +199,13 @@ func c10Eval(t tb, c c10Cell) {
 	fail := func(key, what string) {
 		violation(t, key, fmt.Sprintf("[class=%s flags=%q pre=%s fault=%s companion=%q] %s\nstdout tail:\n%s", c.Class, flags.String(), c.PreState, c.Fault, c.Companion, what, tailLines(r.Stdout, 10)), c)
 	}
-	if r.TimedOut || (r.Exit != 0 && r.Exit != 1) {
-		fail("exit-status", fmt.Sprintf("exit status %d (timed out: %v) %s", r.Exit, r.TimedOut, oneLine(r.Stderr)))
+	// any non-zero status is a failure status for this property; a crash is recognised by its trace, not by its number
+	if r.TimedOut || r.Exit < 0 || strings.Contains(r.Stderr, "panic:") || strings.Contains(r.Stderr, "goroutine ") {
+		fail("crash-or-timeout", fmt.Sprintf("exit status %d (timed out: %v) %s", r.Exit, r.TimedOut, oneLine(r.Stderr)))
 		return
+	}
+	if r.Exit > 1 {
+		col.Label(fmt.Sprintf("exit-status:%d", r.Exit))
 	}
 	if (r.Exit == 0) != wantOK {
 		fail(fmt.Sprintf("exit-%d-expected-ok-%v", r.Exit, wantOK), fmt.Sprintf("exit status %d, expected success=%v", r.Exit, wantOK))
@@ -309,7 +345,7 @@ func TestC10(t *testing.T) {
 			}
 		}
 	}
-	col.Exhaustive(fmt.Sprintf("full matrix: %d configuration classes x 8 flag subsets {--stub, --ignore-missing-params, --ignore-missing-services} x 6 output pre-states x 5 input faults x 4 companion-file arrangements (none / a valid second file before, after, or matched by the same glob), every cell with and without --quiet", len(c10Classes)))
+	col.Exhaustive(fmt.Sprintf("full matrix: %d configuration classes x 8 flag subsets {--stub, --ignore-missing-params, --ignore-missing-services} x 8 output pre-states x 5 input faults x 4 companion-file arrangements (none / a valid second file before, after, or matched by the same glob), every cell with and without --quiet", len(c10Classes)))
 
 	// random configurations inside random cells
 	setRapidChecks(pick(25, 2000))
